@@ -77,6 +77,9 @@ func debugExtents(args []string) {
 	for _, o := range res.consumption {
 		fmt.Println("  ", o.Status, o.Key, o.Detail)
 	}
+	for _, b := range VecDefBeforeUse(rt, flow) {
+		fmt.Println("   UNDEF", b)
+	}
 	fmt.Println("scratch loads:", res.scratchLoads)
 	for _, o := range res.scratchObl {
 		fmt.Println("  ", o.Status, o.Key, o.Detail)
